@@ -93,6 +93,18 @@ def validateCreate (known : List String) (p : PathPat) (isMerge : Bool) : Except
     | none => pure ()
     known ← nodeChk known np
 
+def setRank : SetItem → Nat
+  | .prop .. => 0 | .mapReplace .. => 1 | .mapMerge .. => 1 | .labels .. => 2
+
+/-- the SET clauses the parser makes of one SET item list: a new one starts in front of an item whose kind
+    ranks below a kind already seen in the current one -/
+def setSegments (items : List SetItem) : List (List SetItem) :=
+  let (segs, cur, _) := items.foldl (fun (acc : List (List SetItem) × List SetItem × Nat) it =>
+    let (segs, cur, mx) := acc
+    if setRank it < mx then (segs ++ [cur], [it], setRank it) else (segs, cur ++ [it], max mx (setRank it)))
+    ([], [], 0)
+  if cur.isEmpty then segs else segs ++ [cur]
+
 /-- compile_core.rs arms for Create / Merge / Set / Remove / Delete -/
 def compileUpdates (input : Plan) (us : List UClause) : Except Err WPlan := do
   let mut known : List String := (Compile.outKinds input).map (·.1)
@@ -117,12 +129,15 @@ def compileUpdates (input : Plan) (us : List UClause) : Except Err WPlan := do
       let vars := items.map fun
         | .prop x _ _ => x | .mapReplace x _ => x | .mapMerge x _ => x | .labels x _ => x
       if !(vars.all known.contains) then throw .syntax
-      let ps := items.filterMap fun | .prop x k e => some (x, k, e) | _ => none
-      let ms := items.filterMap fun
-        | .mapReplace x m => some (x, m, false) | .mapMerge x m => some (x, m, true) | _ => none
-      let ls := items.filterMap fun | .labels x l => some (x, l) | _ => none
-      w := { w with stages := w.stages ++ (if ps.isEmpty then [] else [.setProperty ps]) ++
-                      (if ms.isEmpty then [] else [.setFromMap ms]) ++ (if ls.isEmpty then [] else [.setLabels ls]) }
+      -- parser.rs `parse_set` (fix 5723576) starts a new SET clause in front of an item of an earlier kind, so
+      -- that the fixed stage order (property, map, label) of each clause is the text order
+      for seg in setSegments items do
+        let ps := seg.filterMap fun | .prop x k e => some (x, k, e) | _ => none
+        let ms := seg.filterMap fun
+          | .mapReplace x m => some (x, m, false) | .mapMerge x m => some (x, m, true) | _ => none
+        let ls := seg.filterMap fun | .labels x l => some (x, l) | _ => none
+        w := { w with stages := w.stages ++ (if ps.isEmpty then [] else [.setProperty ps]) ++
+                        (if ms.isEmpty then [] else [.setFromMap ms]) ++ (if ls.isEmpty then [] else [.setLabels ls]) }
     | .remove items =>
       let ps := items.filterMap fun | .prop x k => some (x, k) | _ => none
       let ls := items.filterMap fun | .labels x l => some (x, l) | _ => none
@@ -334,7 +349,10 @@ def setLabelsRow (g : Graph) (items : List (String × List String)) (s : St) (u0
   for (x, ls) in items do
     match rowNode u0.row x with
     | some n =>
-      for l in ls do s := { s with ops := s.ops ++ [.addLabel n l], count := s.count + 1 }
+      -- counted only when the node (as the row sees it) does not have the label yet (fix a3c5bfb)
+      let have_ := match u0.ov.lookup x with | some e => e.labels | none => nodeLabels g n
+      for l in ls do
+        s := { s with ops := s.ops ++ [.addLabel n l], count := s.count + (if have_.contains l then 0 else 1) }
       let cur := match u.ent g x with | some e => e.labels | none => []
       u := u.setOv x ⟨ls.foldl (fun acc l => if acc.contains l then acc else acc ++ [l]) cur, nodeProps g n⟩
     | none => if u0.row.get x == some .null then pure () else throw .other
@@ -359,8 +377,8 @@ def removePropertyRow (g : Graph) (items : List (String × String)) (s : St) (u0
     | none => pure ()
   return (s, u)
 
-/-- `execute_remove_labels`: a label whose NAME is known to the database is removed and counted, whether or not
-    the node carries it (`names` = interned label / relationship type names) -/
+/-- `execute_remove_labels`: a label whose NAME is known to the database is removed; it is counted when the node
+    (as the row sees it) carries it (`names` = interned label / relationship type names) -/
 def removeLabelsRow (g : Graph) (names : List String) (items : List (String × List String)) (s : St) (u0 : URow) :
     Except Err (St × URow) := do
   let mut s := s
@@ -368,8 +386,10 @@ def removeLabelsRow (g : Graph) (names : List String) (items : List (String × L
   for (x, ls) in items do
     match rowNode u0.row x with
     | some n =>
+      let have_ := match u0.ov.lookup x with | some e => e.labels | none => nodeLabels g n
       for l in ls do
-        if names.contains l then s := { s with ops := s.ops ++ [.removeLabel n l], count := s.count + 1 }
+        if names.contains l then
+          s := { s with ops := s.ops ++ [.removeLabel n l], count := s.count + (if have_.contains l then 1 else 0) }
       let cur := match u.ent g x with | some e => e.labels | none => []
       u := u.setOv x ⟨cur.filter (!ls.contains ·), nodeProps g n⟩
     | none => if u0.row.get x == some .null then pure () else throw .other
@@ -438,8 +458,9 @@ def materialize (g : Graph) (s : St) (n : Nat) : Ent :=
   | some (_, ls, ps) => ⟨ls, ps⟩
   | none => ⟨nodeLabels g n, nodeProps g n⟩
 
-/-- write_support.rs `merge_apply_set_items` / `_map_items` / `_label_items` (nothing is counted; each item
-    sees the row as updated by the previous one) -/
+/-- write_support.rs `merge_apply_set_items` / `_map_items` / `_label_items` (nothing is counted — the suite pins
+    MERGE's count as "entities created", tests/t323_merge_semantics.rs; each item sees the row as updated by the
+    previous one) -/
 def mergeApplySet (g : Graph) (items : List SetItem) (s : St) (u : URow) : Except Err (St × URow) := do
   let c := s.count
   let ps := items.filterMap fun | .prop x k e => some (x, k, e) | _ => none
@@ -457,11 +478,12 @@ def mergeApplySet (g : Graph) (items : List SetItem) (s : St) (u : URow) : Excep
   for (x, labels) in ls do
     match rowNode u.row x with
     | some n =>
-      for l in labels do s := { s with ops := s.ops ++ [.addLabel n l] }
-      match u.ent g x with
-      | some ent =>
-        u := u.setOv x { ent with labels := labels.foldl (fun acc l => if acc.contains l then acc else acc ++ [l]) ent.labels }
-      | none => pure ()
+      for l in labels do
+        s := { s with ops := s.ops ++ [.addLabel n l] }
+        -- `overlay_add_label_value` only updates a materialised node value
+        match u.ov.lookup x with
+        | some ent => u := u.setOv x { ent with labels := if ent.labels.contains l then ent.labels else ent.labels ++ [l] }
+        | none => pure ()
     | none => throw .other
   return ({ s with count := c }, u)
 
